@@ -112,6 +112,9 @@ KINDS = ["connectReq", "connectEvt", "dConnected", "dClosed", "disconnectReq", "
 
 def cases(chk):
     r = chk.rng
+    for i, end in enumerate(["conflict", "ack", "unknown", "disconnectReq", "xmlNotWellFormed"]):
+        for rec in (1, 0):
+            yield "reboot", {"end": end, "reconnect": rec, "seed": i * 2 + rec}
     corpus = [
         ["connectReq", "dConnected", "success", "pingTick", "pong:1", "pingTick", "pingTick", "loop"],
         ["connectReq", "dConnected", "success", "pingTick", "pong:1", "pingTick", "pong:1", "pingTick", "pong:0", "pingTick", "loop"],
@@ -245,6 +248,8 @@ def _drain_detached(stack):
 
 
 def nontrivial(stream, case):
+    if stream == "reboot":
+        return (stream, case["end"], case["reconnect"])
     if stream == "relogin":
         return (stream, tuple(case["downs"]), case["edge"])
     return (stream, tuple(case["events"]), tuple(sorted(case["opt"].items())))
@@ -291,7 +296,89 @@ def model_event(ev, allowed_d):
     return ev
 
 
+def run_reboot(chk, case):
+    """the stack WITH the encryption control layer and a profile that has keys to upload: passive login, key upload, the control layer's own
+    reboot of the connection (disconnect + connect), second login; then one of the property's terminal events.  Oracle only (the lifecycle
+    model has no control layer): after the control layer's one intended reboot, reconnects follow the property's policy again."""
+    from yowsup.axolotl.manager import AxolotlManager
+    from yowsup.config.v1.config import Config
+    from yowsup.layers import YowParallelLayer
+    from yowsup.layers.auth import YowAuthenticationProtocolLayer
+    from yowsup.layers.axolotl import AxolotlControlLayer
+    from yowsup.layers.interface import YowInterfaceLayer
+    from yowsup.layers.network import YowNetworkLayer
+    from yowsup.layers.protocol_iq import YowIqProtocolLayer
+    from yowsup.profile.profile import YowProfile
+    from yowsup.stacks import YowStack, YowStackBuilder
+    from yowsup.structs import ProtocolTreeNode as N
+    from consonance.structs.keypair import KeyPair
+    from corr.c18 import drain, run_loop
+    import contextlib
+    import io
+    import uuid
+    fails = []
+    drain()
+    FakeDispatcher.created = []
+    FakeDispatcher.LOG = []
+    AxolotlManager.COUNT_GEN_PREKEYS, AxolotlManager.THRESHOLD_REGEN = 4, 2
+    near, top = Probe("near", forward=True), Probe("top")
+    iface = YowInterfaceLayer()
+    stack = YowStack((YowNetworkLayer, near, AxolotlControlLayer, YowParallelLayer(YowStackBuilder.getProtocolLayers()), iface, top), reversed=False)
+    stack.setProp(YowInterfaceLayer.PROP_RECONNECT_ON_STREAM_ERR, bool(case["reconnect"]))
+    stack.setProp(YowIqProtocolLayer.PROP_PING_INTERVAL, 0)
+    stack.setProp(YowNetworkLayer.PROP_ENDPOINT, ("e1.whatsapp.net", 443))
+    stack.setProfile(YowProfile("c16-" + uuid.uuid4().hex, Config(phone="4915166%06d" % (case["seed"] % 10 ** 6), cc=49, client_static_keypair=KeyPair.generate())))
+    net = stack.getLayer(0)
+    steps = []
+
+    def login(expect_upload):
+        d = FakeDispatcher.created[-1]
+        d.handle_connect()
+        n0 = len(near.sent)
+        net.receive(_node("success"))
+        ups = [n for n in near.sent[n0:] if getattr(n, "tag", None) == "iq" and n.getChild("list") is not None]
+        steps.append("connected+success (dispatcher %d, %d key upload)" % (d.idx, len(ups)))
+        return ups
+    sink = io.StringIO()
+    chk.hit("reboot:%s" % case["end"])
+    try:
+        with contextlib.redirect_stdout(sink):
+            iface.connect()
+            ups = login(True)
+            if len(ups) != 1:
+                return []          # no passive upload with this profile: nothing to test (C14's subject)
+            net.receive(N("iq", {"id": ups[0]["id"], "type": "result", "from": "s.whatsapp.net"}))
+            run_loop(stack)
+            steps.append("upload confirmed, loop")
+            if len(FakeDispatcher.created) != 2:
+                return [oracle("C16:reboot-after-key-upload", "steps %s: after the confirmed passive upload %d connection(s) exist, the control layer's reboot should have made a second one"
+                               % (steps, len(FakeDispatcher.created)))]
+            login(False)
+            ncreated = len(FakeDispatcher.created)
+            end = case["end"]
+            if end == "disconnectReq":
+                iface.disconnect()
+            else:
+                net.receive(_node("streamError:" + end))
+            run_loop(stack)
+            run_loop(stack)
+            steps.append(end + ", loop")
+    except Exception as e:
+        import traceback
+        return [oracle("C16:reboot-flow-raises", "steps %s: %s: %s" % (steps, type(e).__name__, traceback.format_exc().strip().splitlines()[-1][:160]))]
+    new = len(FakeDispatcher.created) - ncreated
+    want = 1 if (case["end"] in ("ack", "xmlNotWellFormed", "unknown") and case["reconnect"]) else 0
+    if new != want:
+        fails.append(oracle("C16:unexpected-reconnect" if new > want else "C16:no-reconnect", "steps %s (reconnect option %s): %d new connection(s) were started, the policy says %d "
+                            "(after the control layer's one reboot for the key upload, nothing but the stream-error policy may reconnect)" % (steps, bool(case["reconnect"]), new, want)))
+    elif want == 0 and any(x.open for x in FakeDispatcher.created):
+        fails.append(oracle("C16:connection-left-open", "steps %s: a connection is still open" % steps))
+    return fails
+
+
 def run_case(chk, stream, case):
+    if stream == "reboot":
+        return run_reboot(chk, case)
     if stream == "relogin":
         return run_relogin(chk, case)
     from yowsup.layers import YowLayerEvent
@@ -504,6 +591,8 @@ def check_trace(case, executed, trace):
 
 
 def shrink(stream, case):
+    if stream == "reboot":
+        return
     if stream == "relogin":
         for i in range(len(case["downs"])):
             if len(case["downs"]) > 1:
